@@ -22,8 +22,9 @@ COMPONENTS = {
              'proxy/core/base/tcp_upstream.py', 'proxy/core/connection/*.py'],
     'stub': ['kernel (descriptor table with lowest-free-number allocation, epoll two-layer model, finalisers)', 'peers'],
 }
-ASSUMPTIONS = ['a socket closed only by its finaliser counts as released (CPython refcounting runs it at once; '
-               'a deterministic gc.collect() precedes the final check); the count of such closes is reported',
+ASSUMPTIONS = ['a never-connected socket (failed connect()) dropped without close() and released by its finaliser counts as '
+               'released (new_socket_connection does this; CPython refcounting runs the finaliser at once); a *connected* '
+               'socket that is released only by the garbage collector is reported as a leak (socket_left_to_gc)',
                'descriptor numbers are allocated lowest-free-first per simulated process, as on Linux']
 TIERS = {
     'quick': {'runs': 5000, 'budget_s': 45},
@@ -219,6 +220,10 @@ def run_one(tape: Any, cfg: Dict[str, Any], forbid: FrozenSet[str] = frozenset()
                     w.fail('selector_leak', 'python_map', 'selector still has keys for %r' % keys)
                 elif kfds:
                     w.fail('selector_leak', 'kernel_set', 'kernel interest set still has %r' % kfds)
+            if not w.failures and w.gc_closed_labels:
+                w.fail('socket_left_to_gc', w.gc_closed_labels[0].split(':')[0],
+                       'connected socket(s) %r were never closed by the proxy: their descriptors were released only when the '
+                       'socket objects were garbage collected' % (w.gc_closed_labels[:4],))
             if not w.failures and w.closes_bad:
                 w.fail('bad_close', w.closes_bad[0][2], 'close of a descriptor that was not open or belongs to someone else: %r' % w.closes_bad[:4])
             if not w.failures:
